@@ -22,7 +22,7 @@ const EXCLUDED: &[&str] = &[
 const HEAVY: &[&str] = &[
     "^", "<<", ">>", "$*", "*$", ".*", "*.", "**", "^^", "factorize", "is_prime", "iota", "repeat", "cycle", "til", "to",
     "permutations", "combinations", "subsequences", "random_bytes", "str_radix", "factorial", "!", "lcm", "gcd",
-    "choose", "b_spline", "window", "group", "take", "drop", "random_range",
+    "choose", "b_spline", "window", "group", "take", "drop", "random_range", "×", "⨯", "···", "..",
 ];
 
 struct PoolVal {
